@@ -58,6 +58,8 @@ structure Sess where
   szit   : Option (Nat × Nat × Nat × Bool) := none
   mem    : Mem := {}
   blind : Bool := false      -- configuration too large to execute in the driver: lines are `?`
+  /-- `obs=sparse` was given on the constructor line: no content sweep except in `observe` -/
+  sparse : Bool := false
 
 def Sess.arr (s : Sess) (k : Nat) : Option Arr := (s.slots.getD k none)
 def Sess.lst (s : Sess) (k : Nat) : Option (List Nat) := (s.sslots.getD k none)
@@ -87,8 +89,10 @@ def physM (s : Sess) : String :=
   " ".intercalate parts ++ its ++ zs
 def invAll (s : Sess) : Bool := s.slots.all fun o => match o with | none => true | some a => decide a.Inv
 
-def fin (s : Sess) (hdS hdM : String) : Sess × String × String :=
-  (s, s!"S {hdS}{obsS s}", s!"M {hdM}{obsM s} | {physM s} | {fmtMem s.mem} | {fmtFlags (invAll s) s.mem}")
+def fin (s : Sess) (hdS hdM : String) (sweep : Bool := false) : Sess × String × String :=
+  let oS := if s.sparse && !sweep then "" else obsS s
+  let oM := if s.sparse && !sweep then "" else obsM s
+  (s, s!"S {hdS}{oS}", s!"M {hdM}{oM} | {physM s} | {fmtMem s.mem} | {fmtFlags (invAll s) s.mem}")
 
 def fmtOut (st : Stat) (o : Option Nat) : String :=
   match o with | some v => s!"{fmtStat st} out={v}" | none => fmtStat st
@@ -158,7 +162,8 @@ def step (s : Sess) (c : Cmd) : Sess × String × String :=
     let (st, r, m) := Arr.new cap (growF f) (exGeF f) m (if isNew then .conf else .libc)
     let m := if absurd then { m with nrefused := 0 } else m
     let sst : Stat := if cap = 0 ∨ exGeF f (Gen.CC_MAX_ELEMENTS / cap) ∨ cap > Gen.CC_MAX_ELEMENTS / 8 then .errInvalidCapacity else if refused then .errAlloc else .ok
-    let s' : Sess := { slots := [r, none, none, none], sslots := [if sst = .ok then some [] else none, none, none, none], mem := m }
+    let s' : Sess := { slots := [r, none, none, none], sslots := [if sst = .ok then some [] else none, none, none, none], mem := m,
+                       sparse := c.str "obs" == some "sparse" }
     fin s' (fmtStat sst) (fmtStat st)
   | _ =>
   if s.blind then (s, "S ?", "M ?") else
@@ -168,6 +173,7 @@ def step (s : Sess) (c : Cmd) : Sess × String × String :=
   let s := { s with mem := m }
   let msg (t : String) := fin s s!"st=- {t}" s!"st=- {t}"
   match c.op with
+  | "observe" => fin s "st=-" "st=-" true
   | "destroy" | "destroy_cb" =>
     let cb := c.op == "destroy_cb"
     let r := (List.range NSLOT).foldl (fun (acc : Sess × List Nat × List Nat) j =>
